@@ -204,8 +204,12 @@ def run(tier):
                 evals.append({"src": src, "file": "s%d.star" % j})
         else:
             evals = [{"src": "_r = %s\n" % sn if rng.random() < 0.5 else "%s\n" % sn, "file": "e%d.star" % j} for j, sn in enumerate(gen_snippets(rng, glob, methods, per))]
+        if i % 7 == 3:
+            # names that do not resolve: the failure happens before any statement runs (scope errors)
+            for j in range(0, len(evals), 9):
+                evals[j] = {"src": "zz_new_%d = 1\nzz_other_%d = undefined_name_%d\n" % (j, j, j), "file": evals[j]["file"]}
         c = {"id": "h%d" % i, "cfg": {"dialect": "internal", "reuse_eval": i % 2 == 1, "probe": PROBE},
-             "units": [{"file": "pre.star", "src": PRELUDE, "evals": evals}]}
+             "units": [{"file": "pre.star", "src": PRELUDE, "evals": evals, "freeze": i % 3 == 0, "snapshot": "all" if i % 3 == 0 else None}]}
         cases.append(c)
         files_of[c["id"]] = dict([("pre.star", PRELUDE), ("probe.star", PROBE)] + [(e["file"], e["src"]) for e in evals])
     flavors = [("dbg", ncases)] if tier == "quick" else [("dbg", ncases), ("rel", ncases), ("asan", 300)]
